@@ -570,7 +570,7 @@ def _registry_walk(seed):
         if after != names:
             out["bad"].append(["walk:%s:names-changed" % kind, "%r" % (o,)])
         if kind == "unit":
-            for mag in (7, 2.5, Decimal("1.25"), Decimal("1.2345678901234567890123456789012345"), Decimal("1E+3")):
+            for mag in (7, 2.5, Decimal("1.25"), Decimal("1.2345678901234567890123456789012345"), Decimal("1E+3"), float("inf"), float("-inf")):
                 q = measured.Quantity(mag, o)
                 for codec, f in (("pickle", lambda x: pickle.loads(pickle.dumps(x))), ("copy", copy.copy), ("deepcopy", copy.deepcopy),
                                  ("json", lambda x: json.loads(json.dumps(x, cls=MeasuredJSONEncoder), cls=MeasuredJSONDecoder))):
